@@ -15,8 +15,12 @@ spec/MGCycleXferGen.tla (G) life-cycle histories of the transfer objects (build,
                       muxer) over Z_p data with three different matrices P, R, T: slots, prol / rest / trunc and the
                       multigrid correction through the resulting objects as predicted by TLC (Apply of MGCycle.tla with the
                       ORIGINAL operators) - harness/c09_mgxlife.cpp (real LAFEM / Global objects, exact integer arithmetic)
+spec/MGCycleLayers.tla (G) multigrid over PROCESS LAYERS (MPI): finest level on all ranks, coarser levels on the parents of
+                      groups of ranks (>= 2 parents with overlapping patches), Global::Transfer over a Global::Muxer with ghost
+                      processes, type-0 local matrices that sum up to the Z_p operators: correction and calls on every rank =
+                      the single-process cycle (Apply of MGCycle.tla) - harness/c09_mglayers.cpp (mpirun -np 4 / 6 / 8)
 """
-import os, json, re, threading
+import os, json, re, shutil, threading
 import concurrent.futures as cf
 import vlib
 
@@ -238,6 +242,26 @@ def validate_xfer(chk, binary):
     chk.extra["transfer_variant_runs"] = len(runs)
 
 
+def tlc_jobs(module, jobs, tag):
+    """run the TLC jobs [(name, cfg text, ...)] of `module`; returns [(job, TlcResult)] (pure: called from a side thread)"""
+    files = []
+    for k, job in enumerate(jobs):
+        fn = "gen_%s_%d_%d.cfg" % (module, os.getpid(), k)
+        with open(os.path.join(vlib.SPEC, fn), "w") as f:
+            f.write(job[-1])
+        files.append(fn)
+    try:
+        with cf.ThreadPoolExecutor(max_workers=3) as ex:
+            futs = [ex.submit(vlib.tlc, module, fn, timeout=2400, xmx="2g", tag="%s%d" % (tag, k)) for k, fn in enumerate(files)]
+            return [(job, f.result()) for job, f in zip(jobs, futs)]
+    finally:
+        for fn in files:
+            try:
+                os.remove(os.path.join(vlib.SPEC, fn))
+            except OSError:
+                pass
+
+
 LIFE_OPS = ["clone-default", "clone-shallow", "clone-weak", "clone-deep", "clone-layout", "convert", "convert-index", "convert-float",
             "convert-self", "move-ctor", "move-assign", "move-self", "compile", "swap-rt", "fill"]
 LIFE_KINDS = ["lafem", "global", "global-muxer"]
@@ -261,39 +285,21 @@ def life_sig(c, r):
             "lastop": ops[-1] if ops else "-", "outcome": r.get("outcome", "mismatch")}
 
 
-def validate_life(chk, binary):
-    """(G) life-cycle histories of the transfer objects, expected values from spec/MGCycleXferGen.tla"""
-    jobs = life_jobs(chk.tier, vlib.seed())
-    files = []
-    for k, (nm, txt) in enumerate(jobs):
-        fn = "gen_MGCycleXferGen_%d_%d.cfg" % (os.getpid(), k)
-        with open(os.path.join(vlib.SPEC, fn), "w") as f:
-            f.write(txt)
-        files.append(fn)
+def validate_life(chk, binary, gen):
+    """(G) life-cycle histories of the transfer objects, expected values from spec/MGCycleXferGen.tla (gen = TLC results)"""
     cases = []
-    try:
-        with cf.ThreadPoolExecutor(max_workers=4) as ex:
-            futs = [(ex.submit(vlib.tlc, "MGCycleXferGen", fn, timeout=2400, xmx="2g", tag="C09life%d" % k), nm)
-                    for k, (fn, (nm, _)) in enumerate(zip(files, jobs))]
-            for f, nm in futs:
-                r = f.result()
-                chk.add_tlc(r, "gen " + nm)
-                if r.violation:
-                    chk.model_violation(r, "MGCycleXferGen.tla invariant (%s)" % nm)
-                data = [c for c in r.printed if c.get("kind") == "data"]
-                if len(data) != 1:
-                    raise vlib.MachineryError("MGCycleXferGen (%s): expected one data record, got %d" % (nm, len(data)))
-                for c in r.printed:
-                    if c.get("kind") != "data":
-                        c["data"] = data[0]
-                        c["job"] = nm
-                        cases.append(c)
-    finally:
-        for fn in files:
-            try:
-                os.remove(os.path.join(vlib.SPEC, fn))
-            except OSError:
-                pass
+    for (nm, _), r in gen:
+        chk.add_tlc(r, "gen " + nm)
+        if r.violation:
+            chk.model_violation(r, "MGCycleXferGen.tla invariant (%s)" % nm)
+        data = [c for c in r.printed if c.get("kind") == "data"]
+        if len(data) != 1:
+            raise vlib.MachineryError("MGCycleXferGen (%s): expected one data record, got %d" % (nm, len(data)))
+        for c in r.printed:
+            if c.get("kind") != "data":
+                c["data"] = data[0]
+                c["job"] = nm
+                cases.append(c)
     if not cases:
         raise vlib.MachineryError("MGCycleXferGen produced no cases")
     # the enumeration is what the module says it is: every kind, every operation, objects that restrict with T after an exchange
@@ -316,6 +322,72 @@ def validate_life(chk, binary):
                 "apps": [{"cycle": CYC[a["cyc"]], "peak": a["peak"], "calls": a["calls"][:16], "cor": a["cor"]} for a in c["apps"][:2]]})
 
 
+MPIRUN = ["mpirun", "--allow-run-as-root", "--oversubscribe", "--bind-to", "none", "--mca", "mpi_yield_when_idle", "1", "-np"]
+
+
+def layer_jobs(tier, seed):
+    """(name, nr, cfg text) of the TLC runs of spec/MGCycleLayers.tla"""
+    def cfg(sd, nr, fsels, psels, ming, maxg):
+        return ("SPECIFICATION Spec\nCONSTANTS Seed = %d NR = %d FSELS = %s PSELS = %s CSELS = {0, 1} MING = %d MAXG = %d\n"
+                "INVARIANTS LawSplit Emit\nCHECK_DEADLOCK FALSE\n" % (sd, nr, _set(fsels), _set(psels), ming, maxg))
+    if tier == "quick":
+        return [("layers nr4", 4, cfg(seed, 4, [0, 1, 2, 3], [0, 1, 2], 1, 3))]
+    return [("layers nr4 seed+%d" % q, 4, cfg(seed + q, 4, [0, 1, 2, 3], [0, 1, 2], 1, 4)) for q in (0, 1, 2)] + \
+           [("layers nr6", 6, cfg(seed + 3, 6, [3], [0, 1, 2], 2, 3)), ("layers nr8", 8, cfg(seed + 4, 8, [0, 3], [0, 1, 2], 2, 4))]
+
+
+def layer_sig(c, r):
+    why = str(r.get("why") or "")
+    what = "other"
+    for k, w in (("correction", "cor"), ("calls", "calls"), ("non-integral", "inexact"), ("status", "status"), ("harness:", "harness")):
+        if k in why:
+            what = w
+            break
+    return {"kind": "layers", "what": what, "nr": c.get("nr"), "nparents": c.get("nparents"), "fsel": c.get("fsel"), "psel": c.get("psel"),
+            "csel": c.get("csel"), "outcome": r.get("outcome", "mismatch")}
+
+
+def run_layer_cases(binary, cases, nr):
+    try:
+        return vlib.run_cases(binary, cases, tmo=30, max_abnormal=6, shards=max(1, min(3, 8 // nr)), wrapper=MPIRUN + [str(nr)])
+    except vlib.MachineryError:
+        # an mpirun job that fails to start on the loaded machine is not a statement about the property: one retry in a single job
+        return vlib.run_cases(binary, cases, tmo=60, max_abnormal=6, shards=1, wrapper=MPIRUN + [str(nr)])
+
+
+def validate_layers(chk, binary, gen):
+    """(G) V/F/W cycles over a layered MPI hierarchy, expected values from spec/MGCycleLayers.tla (gen = TLC results)"""
+    groups = []
+    for (nm, nr, _), r in gen:
+        chk.add_tlc(r, "gen " + nm)
+        if r.violation:
+            chk.model_violation(r, "MGCycleLayers.tla invariant (%s)" % nm)
+        cs = [c for c in r.printed if c.get("kind") == "layers"]
+        for c in cs:
+            c["job"] = nm
+        groups.append((nr, cs))
+    allc = [c for _, cs in groups for c in cs]
+    # the enumeration contains what the part is for: >= 2 parents whose coarse patches overlap, ghosts, proper sub-patches
+    if not any(c["nparents"] >= 2 and c["psel"] == 0 for c in allc) or not any(c["fsel"] != 0 for c in allc):
+        raise vlib.MachineryError("MGCycleLayers: enumeration incomplete")
+    for nr, cs in groups:
+        res = run_layer_cases(binary, cs, nr)
+        for c, x in zip(cs, res):
+            if x.get("ok") is False and "harness:" in str(x.get("why", "")):
+                raise vlib.MachineryError("c09_mglayers: %s" % x.get("why"))
+        vlib.judge_results(chk, cs, res, layer_sig,
+                           keyf=lambda c: json.dumps(["layers", c["seed"], c["nr"], c["grp"], c["fsel"], c["psel"], c["csel"]]),
+                           harness="c09_mglayers", nontrivial=lambda c: c["nparents"] >= 2)
+    chk.traces += len(allc)
+    chk.extra["layered_configurations"] = len(allc)
+    chk.extra["layered_configurations_by_parents"] = {str(k): sum(1 for c in allc if c["nparents"] == k) for k in sorted(set(c["nparents"] for c in allc))}
+    chk.extra["layered_multigrid_applications"] = sum(len(c["apps"]) for c in allc)
+    c = allc[len(allc) // 2]
+    chk.sample({"layers": {"nr": c["nr"], "grp": c["grp"], "fine patches": c["lev"][0]["dofs"], "level-1 patches": c["lev"][1]["dofs"],
+                           "child patches": c["cdofs"]},
+                "apps": [{"cycle": CYC[a["cyc"]], "peak": a["peak"], "calls": a["calls"], "cor": a["cor"]} for a in c["apps"][:2]]})
+
+
 def run(chk):
     tier = chk.tier
     bins = {}
@@ -328,6 +400,20 @@ def run(chk):
             err.append(e)
     bt = threading.Thread(target=do_build)
     bt.start()
+    if shutil.which("mpirun") is None or shutil.which("mpicxx") is None:
+        raise vlib.MachineryError("MPI toolchain (mpicxx/mpirun) not available")
+
+    def do_build_mpi():
+        try:
+            bins["layers"], = vlib.build(["c09_mglayers"], variant="mpi", jobs=4)
+        except Exception as e:
+            err.append(e)
+    bt2 = threading.Thread(target=do_build_mpi)
+    bt2.start()
+    # the two small generators run beside the big one
+    side = cf.ThreadPoolExecutor(max_workers=2)
+    gen_life = side.submit(tlc_jobs, "MGCycleXferGen", life_jobs(tier, vlib.seed()), "C09life")
+    gen_layers = side.submit(tlc_jobs, "MGCycleLayers", layer_jobs(tier, vlib.seed()), "C09lay")
 
     # (M) transcription of the code's loops == documented cycle
     r = vlib.tlc("MGCycleOp", "MGCycleOp_%s.cfg" % tier, workers=2 if tier == "quick" else 4, timeout=2400, want_printed=False)
@@ -338,6 +424,7 @@ def run(chk):
     # (G) histories with predicted results
     cases, data, degenerate = generate(chk, tier)
     bt.join()
+    bt2.join()
     if err:
         raise err[0]
     if not cases or not data:
@@ -363,7 +450,10 @@ def run(chk):
     validate_real(chk, bins["real"])
     validate_xfer(chk, bins["xfer"])
     # (G) life-cycle of the transfer objects
-    validate_life(chk, bins["xlife"])
+    validate_life(chk, bins["xlife"], gen_life.result())
+    # (G) multigrid over process layers (MPI)
+    validate_layers(chk, bins["layers"], gen_layers.result())
+    side.shutdown()
 
     chk.exhaustive = True
     chk.rule = ("(M) every cycle x sub-range top..crs of %d levels x left-over _counters contents; (G) every history of spec/MGCycleGen.tla "
@@ -376,7 +466,10 @@ def run(chk):
                 "{LAFEM::Transfer, Global::Transfer, Global::Transfer with coarse muxer} x build {3 matrices, 2 matrices, default} x up to %d operations out "
                 "of clone (default / shallow / weak / deep / layout+copy), convert (same type / via other index type / via float / self), move "
                 "construction / assignment / self-assignment, compile, accessor fill / exchange - slots, prol / rest / trunc and V/F/W corrections "
-                "through the resulting objects compared exactly with TLC's values" % (7 if tier == "quick" else 9, 6, 2 if tier == "quick" else 3))
+                "through the resulting objects compared exactly with TLC's values; (G, process layers) every configuration of spec/MGCycleLayers.tla: "
+                "groupings of the ranks into consecutive groups x fine / parent / child patch families with power-of-two multiplicities and "
+                "complete coverage, V / F / W (with and without peak smoothers) through Global::Transfer + Muxer with ghosts, correction and calls "
+                "of every rank compared exactly with the single-process cycle" % (7 if tier == "quick" else 9, 6, 2 if tier == "quick" else 3))
     for c in cases[len(cases) // 3: len(cases) // 3 + 2]:
         chk.sample({"N": c["N"], "pre/post/peak/cs": [c["pre"], c["post"], c["peak"], c["cs"]], "k": c["k"],
                     "apps": [{"how": a["how"], "cycle": CYC[a["cyc"]], "top": a["top"], "crs": a["crs"], "adapt": ADAPT[a["adapt"]],
@@ -389,8 +482,12 @@ def run(chk):
         "filtered (first application) or arbitrary (second application)",
         "level data over Z_32003 is generic (hash-generated), not SPD: the exact part checks the algebraic identity of the map, positivity "
         "plays no role in it; configurations whose adaptive denominator is 0 mod p are skipped (counted)",
-        "Global:: layer on ONE process (null gates; coarse muxer absent or with this process as child and parent over a size-1 sibling "
-        "communicator): ghost muxers / rest_send / prol_recv of genuinely distributed hierarchies are not explored",
+        "Global:: layer in the mock / floating / life-cycle parts on ONE process (null gates; coarse muxer absent or with this process as "
+        "child and parent over a size-1 sibling communicator); genuinely distributed hierarchies (gates, ghost muxers, rest_send / prol_recv) "
+        "are explored by the process-layer part only: 3 levels (3 / 2 / 3 unknowns), one layer change between levels 0 and 1, levels 1 and 2 "
+        "on the parents, mock smoothers / filters that act on the gathered global vector; every dof is held by 1, 2, 4 or 8 ranks "
+        "(Global::Matrix::apply divides by the multiplicity: other multiplicities are not exact in floating point); local numbering "
+        "ascending (renumbered / non-monotone mirrors are C13's subject); fixed coarse grid correction",
         "transfer life-cycle part: dense 3x2 / 2x3 transfer matrices with residues of Z_32003 as entries (sparsity patterns of FE transfer "
         "matrices only in the floating variants 'clone' / 'global-clone'); clone modes Layout / Allocate carry no values by definition (Layout is "
         "followed by a value copy, Allocate is not used); aliasing between a shallow clone and its source (later modification of the source) "
@@ -418,8 +515,12 @@ def replay(obj):
             print(json.dumps({"sig": v["sig"], "desc": v["desc"][:400]}))
             bad += 1
             continue
-        b = {"c09_mgmock": mock, "c09_mgxfer": xfer, "c09_mgxlife": xlife}.get(rp.get("harness"), real)
-        r = vlib.run_cases(b, [rp["case"]], tmo=300, shards=1)[0]
+        if rp.get("harness") == "c09_mglayers":
+            lay, = vlib.build(["c09_mglayers"], variant="mpi", jobs=4)
+            r = run_layer_cases(lay, [rp["case"]], rp["case"]["nr"])[0]
+        else:
+            b = {"c09_mgmock": mock, "c09_mgxfer": xfer, "c09_mgxlife": xlife}.get(rp.get("harness"), real)
+            r = vlib.run_cases(b, [rp["case"]], tmo=300, shards=1)[0]
         print(json.dumps({"sig": v["sig"], "result": r})[:1200])
         if r.get("ok") is not True:
             bad += 1
